@@ -1,6 +1,7 @@
 (* C09 - Counterfactual transport (ctfTRu / ctfTR) answers are correct. *)
 From Coq Require Import List Bool.
-From Y0 Require Import Base.ListSet Graph.MixedGraph Dsl.Syntax Dsl.Build Alg.Id Alg.Tian Alg.Cg Alg.CtfAnc Alg.CtfTr Proofs.CtfTrP.
+From Y0 Require Import Base.ListSet Graph.MixedGraph Dsl.Syntax Dsl.Build Alg.Id Alg.Tian Alg.Cg Alg.CtfAnc Alg.CtfTr Proofs.CtfTrP
+  Sem.Scm Sem.CfSem Proofs.SimplifySemP.
 Import ListNotations.
 
 (* Soundness is not proved, and the pinned implementation violates the property on some inputs (known findings
@@ -13,5 +14,19 @@ Theorem C09_unconditional_answer_without_event_is_zero ev target domains e :
   transport_unconditional ev target domains = CftOk e None -> e = EZero.
 Proof. exact (uncond_zero_answer_is_zero ev target domains e). Qed.
 
+(* 'it returns zero only for impossible events', against the formal SCM semantics (Sem/Scm.v), for events none of whose minimised variables is
+   reflexive: when ctfTRu answers 'zero, no event', the queried event is true at no exogenous state of any functional SCM over the target graph -
+   probability zero in every compatible target model. (With a reflexive conjunct Y_y the clause fails with SIMPLIFY: known finding, C19.) *)
+Theorem C09_unconditional_zero_only_for_impossible_events (target : mg nat) (D : Type) `{EqB D} (U : Type) (f : nat -> (nat -> D) -> U -> D)
+  (rho : nat * bool -> D) (order : list nat) (ev m : cevent) domains e u :
+  (forall n, rho (n, false) <> rho (n, true)) -> local target U f -> is_topo target order = true ->
+  minimized_of target ev = Some m -> (forall p, In p ev -> In (vn (fst p)) (nodes target)) -> (forall p, In p m -> is_reflexive (fst p) = false) -> cnamed ev ->
+  transport_unconditional ev target domains = CftOk e None -> cevent_true U f rho order ev u = false.
+Proof.
+  intros Hd Hl Ho Hm Hn Hr Hc Ht. apply (simplify_impossible_never target U f rho Hd Hl order Ho u ev m Hm Hn Hr Hc).
+  apply (proj1 (uncond_zero_iff_simplify_fails ev target domains)). exists e. exact Ht.
+Qed.
+
 Print Assumptions C09_unconditional_zero_exactly_when_SIMPLIFY_fails.
+Print Assumptions C09_unconditional_zero_only_for_impossible_events.
 Print Assumptions C09_unconditional_answer_without_event_is_zero.
